@@ -2123,6 +2123,20 @@ func enumFields(yield func(MutCase) bool) {
 				loadPools()
 				vals = regimePool
 			}
+			if a.s.GoType == "cbc.Key" {
+				// refinements of keys that are valid at this field: where the library
+				// accepts `<defined key>+<sub-key>`, the published enumeration must too
+				seen := map[string]bool{}
+				cands := append([]string{a.s.Value}, harvestField[f]...)
+				vals = append([]string{}, vals...)
+				for _, hv := range cands {
+					if hv == "" || seen[hv] || len(seen) >= 8 {
+						continue
+					}
+					seen[hv] = true
+					vals = append(vals, hv+"+sub", hv+"+x-1")
+				}
+			}
 			for _, v := range vals {
 				idx++
 				if idx%vh.Cfg().Shards != vh.Cfg().Shard {
